@@ -26,7 +26,9 @@ type Issue struct {
 }
 
 func isProbe(w string) bool  { return reProbe.MatchString(w) }
-func isMargin(w string) bool { return reMargin.MatchString(w) }
+var reMarginAny = regexp.MustCompile(`^(pg|tl|tc|nx|bl|br)\d+(of\d+)?$`)
+
+func isMargin(w string) bool { return reMarginAny.MatchString(w) }
 
 type wordIndex struct {
 	flowOf map[string]string
@@ -55,6 +57,56 @@ func indexWords(e *Expect) *wordIndex {
 	return wi
 }
 
+// rejoinFirstLetters undoes the visual split of ::first-letter: a drawn fragment f that is
+// not a word of the document while "<letter>f" is one, consumes one stand-alone <letter>
+// drawn on the same page. Letters or fragments left over stay as they are (and are then
+// reported as alien / lost by the caller).
+func rejoinFirstLetters(w *OpResult, wi *wordIndex) *OpResult {
+	out := *w
+	out.PageWords = make([][]string, len(w.PageWords))
+	for p, ws := range w.PageWords {
+		letters := map[string]int{}
+		for _, x := range ws {
+			if len([]rune(x)) == 1 {
+				letters[x]++
+			}
+		}
+		var res []string
+		used := map[string]int{}
+		for _, x := range ws {
+			if _, known := wi.flowOf[x]; known || len([]rune(x)) == 1 {
+				res = append(res, x)
+				continue
+			}
+			joined := false
+			for l, n := range letters {
+				if n-used[l] > 0 {
+					if _, ok := wi.flowOf[l+x]; ok {
+						used[l]++
+						res = append(res, l+x)
+						joined = true
+						break
+					}
+				}
+			}
+			if !joined {
+				res = append(res, x)
+			}
+		}
+		// drop the stand-alone letters that were consumed
+		var fin []string
+		for _, x := range res {
+			if len([]rune(x)) == 1 && used[x] > 0 {
+				used[x]--
+				continue
+			}
+			fin = append(fin, x)
+		}
+		out.PageWords[p] = fin
+	}
+	return &out
+}
+
 // checkConservation: C02 on the drawn words of one write.
 func checkConservation(sc *Scenario, w *OpResult) []Issue {
 	e := &sc.Expect
@@ -62,6 +114,9 @@ func checkConservation(sc *Scenario, w *OpResult) []Issue {
 		return nil
 	}
 	wi := indexWords(e)
+	if e.FirstLetter {
+		w = rejoinFirstLetters(w, wi)
+	}
 	var out []Issue
 	count := map[string]int{}
 	type pos struct{ page, idx int }
@@ -271,6 +326,21 @@ func checkPages(sc *Scenario, w, l *OpResult, active []int) []Issue {
 			}
 			if found != 1 {
 				out = append(out, Issue{"counter:margin-box-count", "margin-box", fmt.Sprintf("page %d has %d page-counter margin boxes, expected 1", p+1, found)})
+			}
+		}
+	}
+	// margin boxes that manipulate counters (pag-27): each box sees the page counters, and
+	// the increments / resets of one box are not seen by its siblings
+	if e.MarginCounters {
+		for p, ws := range w.PageWords {
+			have := map[string]bool{}
+			for _, x := range ws {
+				have[x] = true
+			}
+			for _, want := range []string{fmt.Sprintf("tl%d", p+1), fmt.Sprintf("tc%dof%d", p+1, n), fmt.Sprintf("nx%d", p+2), "bl7", fmt.Sprintf("br0%d", p+1)} {
+				if !have[want] {
+					out = append(out, Issue{"counter:margin-box", want[:2], fmt.Sprintf("page %d: margin box text %q expected (each margin box has its own copy of the page counters)", p+1, want)})
+				}
 			}
 		}
 	}
@@ -626,6 +696,9 @@ func checkSentinels(sc *Scenario, w *OpResult, faultedFiles map[string]bool) []I
 	}
 	if len(sent) == 0 {
 		return nil
+	}
+	if e.FirstLetter {
+		w = rejoinFirstLetters(w, indexWords(e))
 	}
 	drawn := map[string]bool{}
 	for _, ws := range w.PageWords {
